@@ -177,11 +177,23 @@ var c01Tampers = []c01Tamper{
 		e.ID = vk.CanonID(e)
 		return true
 	}},
-	{"id-nibble", func(r *rand.Rand, e *mocrelay.Event, _ []vk.Key) bool { e.ID = bumpNibble(e.ID, r.IntN(64)); return true }},
+	{"id-nibble", func(r *rand.Rand, e *mocrelay.Event, _ []vk.Key) bool {
+		e.ID = bumpNibble(e.ID, r.IntN(64))
+		return true
+	}},
 	{"id-bitflip", func(r *rand.Rand, e *mocrelay.Event, _ []vk.Key) bool { e.ID = flipBit(e.ID, r.IntN(256)); return true }},
-	{"sig-nibble", func(r *rand.Rand, e *mocrelay.Event, _ []vk.Key) bool { e.Sig = bumpNibble(e.Sig, r.IntN(128)); return true }},
-	{"sig-bitflip-r", func(r *rand.Rand, e *mocrelay.Event, _ []vk.Key) bool { e.Sig = flipBit(e.Sig, r.IntN(256)); return true }},
-	{"sig-bitflip-s", func(r *rand.Rand, e *mocrelay.Event, _ []vk.Key) bool { e.Sig = flipBit(e.Sig, 256+r.IntN(256)); return true }},
+	{"sig-nibble", func(r *rand.Rand, e *mocrelay.Event, _ []vk.Key) bool {
+		e.Sig = bumpNibble(e.Sig, r.IntN(128))
+		return true
+	}},
+	{"sig-bitflip-r", func(r *rand.Rand, e *mocrelay.Event, _ []vk.Key) bool {
+		e.Sig = flipBit(e.Sig, r.IntN(256))
+		return true
+	}},
+	{"sig-bitflip-s", func(r *rand.Rand, e *mocrelay.Event, _ []vk.Key) bool {
+		e.Sig = flipBit(e.Sig, 256+r.IntN(256))
+		return true
+	}},
 	{"sig-swap-halves", func(r *rand.Rand, e *mocrelay.Event, _ []vk.Key) bool { e.Sig = e.Sig[64:] + e.Sig[:64]; return true }},
 	{"sig-zero", func(r *rand.Rand, e *mocrelay.Event, _ []vk.Key) bool { e.Sig = strings.Repeat("0", 128); return true }},
 	{"sig-of-other-event", func(r *rand.Rand, e *mocrelay.Event, keys []vk.Key) bool {
